@@ -239,3 +239,62 @@ pub fn fbig_shift_zero() {
     assert!(ok(&a) && ok(&b) && ok(&c));
     assert!(ok(&d), "zero >>= k is no longer the canonical zero");
 }
+
+/// C10 on FBig itself, base B, LITERAL exponent -k and every normalised significand |sig| < 2^bits:
+/// op 0 trunc, 1 floor, 2 ceil, 3 round (ties away from zero), 4 fract, 5 split_at_point (trunc + fract = x).
+/// Oracle: i64 arithmetic on sig and B^k.
+pub fn fbig_round_ops<const B: Word>(k: u32, op: u8, bits: u32) {
+    let sig: i64 = nd::any();
+    nd::assume(sig > -(1 << bits) && sig < (1 << bits) && sig % (B as i64) != 0);
+    let mut pow: i64 = 1;
+    let mut i = 0;
+    while i < k {
+        pow *= B as i64;
+        i += 1;
+    }
+    let x = FBig::<mode::Zero, B>::from_parts(small_i(sig), -(k as isize));
+    let get = |x: &FBig<mode::Zero, B>| -> (i64, isize) {
+        let r = x.repr();
+        let (s, w) = r.significand().as_sign_words();
+        assert!(w.len() <= 1);
+        let m = if w.is_empty() { 0 } else { w[0] as i64 };
+        (if s == NEG { -m } else { m }, r.exponent())
+    };
+    // value of (s, e) scaled by B^k, as an integer (e + k >= 0 required)
+    let scaled = |(s, e): (i64, isize)| -> i64 {
+        let n = e + k as isize;
+        assert!(n >= 0 && n <= 40, "result has digits below the input's last digit");
+        let mut v = s;
+        let mut j = 0;
+        while j < n {
+            v *= B as i64;
+            j += 1;
+        }
+        v
+    };
+    let t = sig / pow; // toward zero
+    let r = sig % pow; // sign of sig
+    let want_int = match op {
+        0 => t,
+        1 => sig.div_euclid(pow),
+        2 => -((-sig).div_euclid(pow)),
+        _ => {
+            if 2 * r.abs() >= pow {
+                t + if sig < 0 { -1 } else { 1 }
+            } else {
+                t
+            }
+        }
+    };
+    match op {
+        0 => assert!(scaled(get(&x.trunc())) == want_int * pow, "trunc"),
+        1 => assert!(scaled(get(&x.floor())) == want_int * pow, "floor"),
+        2 => assert!(scaled(get(&x.ceil())) == want_int * pow, "ceil"),
+        3 => assert!(scaled(get(&x.round())) == want_int * pow, "round (ties away from zero)"),
+        4 => assert!(scaled(get(&x.fract())) == r, "fract"),
+        _ => {
+            let (a, b) = x.split_at_point();
+            assert!(scaled(get(&a)) == t * pow && scaled(get(&b)) == r, "split_at_point");
+        }
+    }
+}
